@@ -20,6 +20,7 @@ for d in /verif/seeded/C*-13; do
     (cd $W && timeout 900 bash seeded/demo.sh > /dev/null 2>&1); without="script exit $?"
   else
     cp $d/seeded_demo.rs assert-struct/tests/seeded_demo.rs
+    for sub in seeded_demo_cases seeded_cases seeded_demo seeded_demo_case; do [ -d $d/$sub ] && cp -r $d/$sub assert-struct/tests/; done
     with=$(cargo test --offline -p assert-struct --test seeded_demo 2>&1 | grep -E "^test result|error: could not compile|error\[" | head -1 | cut -c1-80)
     git apply -R $d/patch.diff
     without=$(cargo test --offline -p assert-struct --test seeded_demo 2>&1 | grep -E "^test result|error: could not compile|error\[" | head -1 | cut -c1-80)
